@@ -17,35 +17,32 @@ Definition wf_dag (g : graph) : Prop :=
   forall i u, i < length g -> In u (ups (gnode g i)) -> u < i.
 
 (* one call of some node's update(), in program order, with its nesting depth *)
-Record entry := { e_depth : nat; e_src : nat; e_dst : nat; e_val : val; e_md : list nat }.
+Record entry := { e_depth : nat; e_src : nat; e_dst : nat; e_val : val; e_md : md }.
 
 Record world := {
   sts : list nstate;
   cnt : nat -> Z;              (* reference counters, by id *)
   fired : list nat;            (* completion callbacks scheduled, in order *)
-  log : list entry;            (* reversed *)
-  failed : bool;               (* an exception is stored in a coroutine node's future *)
+  log : list entry;            (* whole history, most recent first *)
 }.
 
 Definition wset_sts (w : world) (s : list nstate) : world :=
-  {| sts := s; cnt := cnt w; fired := fired w; log := log w; failed := failed w |}.
+  {| sts := s; cnt := cnt w; fired := fired w; log := log w |}.
 Definition wlog (w : world) (e : entry) : world :=
-  {| sts := sts w; cnt := cnt w; fired := fired w; log := e :: log w; failed := failed w |}.
-Definition wfail (w : world) : world :=
-  {| sts := sts w; cnt := cnt w; fired := fired w; log := log w; failed := true |}.
+  {| sts := sts w; cnt := cnt w; fired := fired w; log := e :: log w |}.
 
 Definition nst (w : world) (i : nat) : nstate := nth i (sts w) st_empty.
 
 (* RefCounter.retain(n) / release(n) on every dictionary of a metadata list that has a counter *)
 Definition retain1 (w : world) (r : nat) (n : Z) : world :=
   {| sts := sts w; cnt := fun r' => if Nat.eqb r r' then (cnt w r' + n)%Z else cnt w r';
-     fired := fired w; log := log w; failed := failed w |}.
+     fired := fired w; log := log w |}.
 
 Definition release1 (w : world) (r : nat) (n : Z) : world :=
   let c := (cnt w r - n)%Z in
   {| sts := sts w; cnt := fun r' => if Nat.eqb r r' then c else cnt w r';
      fired := if (c <=? 0)%Z then fired w ++ [r] else fired w;
-     log := log w; failed := failed w |}.
+     log := log w |}.
 
 Definition retain (w : world) (m : md) (n : Z) : world :=
   fold_left (fun w i => if mref i then retain1 w (mid i) n else w) m w.
@@ -78,46 +75,53 @@ Definition status_join (acc s : status) : status :=
 (* interpret the action list of node d; `emit` is the recursive push from d.
    coro = the node's update is a tornado coroutine that yields on what its _emit returned:
    a failed awaitable then raises inside the coroutine and the remaining statements are skipped. *)
+Definition do_action (emit : world -> val -> md -> world * status) (coro : bool) (d : nat)
+           (ws : world * status) (a : action) : world * status :=
+  let '(w, s) := ws in
+  if (if coro then status_ok s else status_go s) then
+    match a with
+    | ASet st => (wset_sts w (set_nth d st (sts w)), s)
+    | ARetain m => (retain w m 1, s)
+    | ARelease m => (release w m 1, s)
+    | AEmit y my => let '(w', s') := emit w y my in (w', status_join s s')
+    end
+  else ws.
+
 Definition run_actions (emit : world -> val -> md -> world * status) (coro : bool)
            (d : nat) (acts : list action) (w : world) : world * status :=
-  fold_left (fun (ws : world * status) a =>
-               let '(w, s) := ws in
-               if (if coro then status_ok s else status_go s) then
-                 match a with
-                 | ASet st => (wset_sts w (set_nth d st (sts w)), s)
-                 | ARetain m => (retain w m 1, s)
-                 | ARelease m => (release w m 1, s)
-                 | AEmit y my => let '(w', s') := emit w y my in (w', status_join s s')
-                 end
-               else ws) acts (w, SOk).
+  fold_left (do_action emit coro d) acts (w, SOk).
+
+(* one downstream.update(x, who=n, metadata=m) call plus the release that follows it in _emit *)
+Definition deliver (emitfrom : nat -> world -> val -> md -> world * status)
+           (g : graph) (depth n : nat) (x : val) (m : md)
+           (ws : world * status) (d : nat) : world * status :=
+  let '(w, s) := ws in
+  if status_go s then
+    let nd := gnode g d in
+    let coro := is_coroutine (nkind nd) in
+    let w := wlog w {| e_depth := depth; e_src := n; e_dst := d; e_val := x; e_md := m |} in
+    match update (nkind nd) (nst w d) (index_of n (ups nd)) x m with
+    | None => if coro then (release w m 1, SFailed) else (w, SRaise)
+    | Some acts =>
+        let '(w, s') := run_actions (emitfrom d) coro d acts w in
+        match s' with
+        | SOk => (release w m 1, s)
+        | SFailed => (release w m 1, SFailed)
+        | SRaise => if coro then (release w m 1, SFailed) else (w, SRaise)
+        | SFuel => (w, SFuel)
+        end
+    end
+  else ws.
 
 (* Stream._emit at node n *)
-Fixpoint push (fuel : nat) (g : graph) (w : world) (depth n : nat) (x : val) (m : md)
+Fixpoint push (fuel : nat) (g : graph) (depth n : nat) (w : world) (x : val) (m : md)
   {struct fuel} : world * status :=
   match fuel with
   | O => (w, SFuel)
   | S fuel' =>
     let ds := downs g w n in
     let w := retain w m (Z.of_nat (length ds)) in
-    fold_left (fun (ws : world * status) d =>
-       let '(w, s) := ws in
-       if status_go s then
-         let nd := gnode g d in
-         let coro := is_coroutine (nkind nd) in
-         let w := wlog w {| e_depth := depth; e_src := n; e_dst := d; e_val := x;
-                            e_md := map mid m |} in
-         match update (nkind nd) (nst w d) (index_of n (ups nd)) x m with
-         | None => if coro then (release w m 1, SFailed) else (w, SRaise)
-         | Some acts =>
-             let '(w, s') := run_actions (fun w y my => push fuel' g w (S depth) d y my) coro d acts w in
-             match s' with
-             | SOk => (release w m 1, s)
-             | SFailed => (release w m 1, SFailed)
-             | SRaise => if coro then (release w m 1, SFailed) else (w, SRaise)
-             | SFuel => (w, SFuel)
-             end
-         end
-       else ws) ds (w, SOk)
+    fold_left (deliver (fun d => push fuel' g (S depth) d) g depth n x m) ds (w, SOk)
   end.
 
 (* ---- external events ---------------------------------------------------- *)
@@ -127,47 +131,62 @@ Inductive event :=
 
 Definition init_world (g : graph) : world :=
   {| sts := map (fun nd => init_state (nkind nd) (length (ups nd))) g;
-     cnt := fun _ => 0%Z; fired := []; log := []; failed := false |}.
-
-Definition clear_event (w : world) : world :=
-  {| sts := sts w; cnt := cnt w; fired := fired w; log := []; failed := false |}.
+     cnt := fun _ => 0%Z; fired := []; log := [] |}.
 
 Definition step (fuel : nat) (g : graph) (w : world) (e : event) : world * status :=
   match e with
-  | EEmit n x m => push fuel g w 0 n x m
+  | EEmit n x m => push fuel g 0 n w x m
   | EFlush n =>
-      run_actions (fun w y my => push fuel g w 0 n y my) false n (flush_actions (nst w n)) w
+      (* flush() discards what _emit returned, so a failed awaitable is never looked at *)
+      let '(w', s) := run_actions (push fuel g 0 n) false n (flush_actions (nst w n)) w in
+      (w', match s with SFailed => SOk | _ => s end)
   end.
 
 (* what the harness observes after one event *)
 Record obs := {
-  o_calls : list entry;          (* program order *)
+  o_calls : list entry;          (* program order, this event only *)
   o_raised : bool;               (* the emit call raised (directly or through a stored future) *)
   o_counts : list Z;             (* counters 0 .. nrc-1 *)
   o_fired : list nat;            (* callbacks scheduled so far *)
 }.
 
-Definition observe (nrc : nat) (w : world) (s : status) : obs :=
-  {| o_calls := rev (log w);
+Definition observe (nrc : nat) (w w' : world) (s : status) : obs :=
+  {| o_calls := rev (firstn (length (log w') - length (log w)) (log w'));
      o_raised := negb (status_ok s);
-     o_counts := map (cnt w) (seq 0 nrc);
-     o_fired := fired w |}.
+     o_counts := map (cnt w') (seq 0 nrc);
+     o_fired := fired w' |}.
 
 Fixpoint run_from (fuel : nat) (g : graph) (nrc : nat) (w : world) (evs : list event) : list obs :=
   match evs with
   | [] => []
   | e :: rest =>
-      let '(w', s) := step fuel g (clear_event w) e in
-      observe nrc w' s :: run_from fuel g nrc w' rest
+      let '(w', s) := step fuel g w e in
+      observe nrc w w' s :: run_from fuel g nrc w' rest
   end.
 
+Definition fuel_for (g : graph) : nat := S (length g).
+
 Definition run (g : graph) (nrc : nat) (evs : list event) : list obs :=
-  run_from (S (length g)) g nrc (init_world g) evs.
+  run_from (fuel_for g) g nrc (init_world g) evs.
+
+(* the final world of a run (theorems are stated about this) *)
+Fixpoint exec_from (fuel : nat) (g : graph) (w : world) (evs : list event) : world * status :=
+  match evs with
+  | [] => (w, SOk)
+  | e :: rest =>
+      let '(w', s) := step fuel g w e in
+      match s with
+      | SOk => exec_from fuel g w' rest
+      | _ => (w', s)
+      end
+  end.
+Definition exec (g : graph) (evs : list event) : world * status :=
+  exec_from (fuel_for g) g (init_world g) evs.
 
 (* ---- boolean comparison of observations (used by the correspondence) ---- *)
 Definition entry_eqb (a b : entry) : bool :=
   Nat.eqb (e_depth a) (e_depth b) && Nat.eqb (e_src a) (e_src b) && Nat.eqb (e_dst a) (e_dst b)
-  && val_eqb (e_val a) (e_val b) && list_eqb Nat.eqb (e_md a) (e_md b).
+  && val_eqb (e_val a) (e_val b) && list_eqb mdi_eqb (e_md a) (e_md b).
 
 Definition obs_eqb (a b : obs) : bool :=
   list_eqb entry_eqb (o_calls a) (o_calls b) && Bool.eqb (o_raised a) (o_raised b)
